@@ -91,9 +91,11 @@ template <int S, int D> inline Spl<S, D> build(const Problem<D> &p) { return Spl
 // Every observable of the result must equal that of build(p) bit for bit.
 template <int S, int D> inline Spl<S, D> build_with_history(const Problem<D> &p, int variant = 0) {
   // variant 0 / 1: larger first problem, update through the time-point / duration overload; variant 2: SAME segment count with other
-  // durations (x 0.75), update through the time-point overload
+  // durations (x 0.75), update through the time-point overload; variant 3: see below
   Problem<D> big; big.N = p.N + 2; big.T = p.T; big.T.push_back(variant ? 0.75 : 1.0); big.T.push_back(0.5); big.t0 = p.t0 + 2.0;
   if (variant == 2) { big.N = p.N; big.T = p.T; for (double &t : big.T) t *= 0.75; }
+  // variant 3: SAME segment count, SAME start and end time, the durations in REVERSED order (other inner knot times), update by durations
+  if (variant == 3) { big.N = p.N; big.T.assign(p.T.rbegin(), p.T.rend()); big.t0 = p.t0; }
   set_generic_data(big, 4242 + p.N);
   Spl<S, D> s(big.T, big.P, big.t0, big.bc);
   (void)s.getEnergy(); (void)s.getEnergyGrad(); (void)s.getEnergyPartialGradByCoeffs(); (void)s.getEnergyPartialGradByTimes();
@@ -101,7 +103,7 @@ template <int S, int D> inline Spl<S, D> build_with_history(const Problem<D> &p,
   for (int k = 0; k < 2 * S; ++k) (void)s.getTrajectory().evaluate(big.t0 + 0.25, k);
   (void)s.getTrajectory().getTrajectoryLength(0.25);
   std::vector<double> tp = p.timepoints(); bool exact = true; for (int i = 0; i < p.N; ++i) exact = exact && (tp[i + 1] - tp[i] == p.T[i]);
-  if (exact && variant != 1) s.update(tp, p.P, p.bc); else s.update(p.T, p.P, p.t0, p.bc);
+  if (exact && variant != 1 && variant != 3) s.update(tp, p.P, p.bc); else s.update(p.T, p.P, p.t0, p.bc);
   return s;
 }
 
